@@ -270,6 +270,34 @@ def run(ctx):
                     res["oracle_failures"].append(dict(clause="lock", api=f"{cname} given a {scls.__name__} object {extra}", verdict="accept",
                                                        developer_mode=False, constants_differing_from_approved=dict(list(diff.items())[:6])))
 
+    # ---- the settings a fit derives from the model's own (update_daily_settings, called by _fit_components / _final_fit): whatever was
+    # derived before, for whichever profile, the result is the given settings with exactly the requested fields changed
+    try:
+        from opendsm.eemeter.models.daily.utilities.settings import update_daily_settings
+        updates = [{"DEVELOPER_MODE": True, "SILENT_DEVELOPER_MODE": True, "REGULARIZATION_ALPHA": 0.0},
+                   {"developer_mode": True, "silent_developer_mode": True, "alpha_final_type": None, "final_bounds_scalar": None}]
+        order = [f for f in ("daily", "legacy", "billing") if f in fams]
+        for fam in order + order[::-1] + order:
+            base = fams[fam]()
+            for u in updates:
+                res["evaluations"] += 1
+                try:
+                    got = update_daily_settings(base, dict(u)).model_dump()
+                except Exception as e:  # noqa
+                    res["hist"][f"update_daily_settings_raised:{fam}:{type(e).__name__}"] = 1
+                    continue
+                want = base.model_dump()
+                want.update({k.lower(): v for k, v in u.items()})
+                diff = {k: (canon_value(want[k]), canon_value(got[k])) for k in want if k in got and canon_value(got[k]) != canon_value(want[k])}
+                if diff:
+                    res["oracle_failures"].append(dict(clause="settings_used_by_the_fit_are_the_models_own", profile=fam, update=list(u),
+                                                       differing=dict(list(diff.items())[:6]),
+                                                       note="(given settings + update, returned by update_daily_settings); sequence daily, legacy, billing, reversed, again"))
+                    break
+        sigs.add(("update_daily_settings", len(order)))
+    except ImportError:
+        res["disagreements"].append(dict(op="internal_api", detail="update_daily_settings is gone"))
+
     # ---- NESTED settings objects: every settings-valued field of every profile given an OBJECT of each nested settings class found
     # in any profile (default-constructed), without developer mode: refuse, or carry the approved constants of the model's own profile
     import pydantic as _pyd
